@@ -141,13 +141,18 @@ type Result struct {
 	Configs    []string
 	Wall       time.Duration
 	Extra      map[string]interface{}
+	Renames    []string
 	Violations []Obligation // not matched by a known finding
 	Known      []Obligation
 	Undecideds []Obligation
 }
 
+// Active is the program the rules currently run on (used for rename-aware name comparisons).
+var Active *Program
+
 // RunProperty executes all rules of prop on program p and appends to res.
 func RunProperty(p *Program, prop *Property, tier string, res *Result) {
+	Active = p
 	c := &Ctx{P: p, Prop: prop, Tier: tier, Counters: res.Counters}
 	for i := range prop.Rules {
 		r := &prop.Rules[i]
@@ -174,6 +179,7 @@ func RunProperty(p *Program, prop *Property, tier string, res *Result) {
 	}
 	res.Obs = append(res.Obs, c.Obs...)
 	res.Configs = append(res.Configs, p.Cfg.String())
+	res.Renames = p.RenameNotes()
 }
 
 // Finish classifies, prints and writes evidence. Returns the exit code.
@@ -296,6 +302,7 @@ func Finish(res *Result, verifDir string, tier string, seed int) int {
 		"configs":      uniq(res.Configs),
 		"not_decided":  prop.NotDecided,
 		"known_findings_matched": len(res.Known),
+		"renames_recognised":     res.Renames,
 		"undecided":    len(res.Undecideds),
 		"exhaustive":   true,
 	}
